@@ -210,7 +210,66 @@ def rule_u6(ctx, facts):
     return n
 
 
+TLS_FNS = ("thread::LocalKey::<T>::with", "thread::LocalKey::<T>::try_with", "thread::LocalKey::<std::cell::Cell<T>>::set",
+           "thread::LocalKey::<std::cell::Cell<T>>::replace", "thread::LocalKey::<std::cell::Cell<T>>::take",
+           "thread::local::LocalKey::<T>::with", "thread::local::LocalKey::<T>::try_with")
+
+
+def tls_access(c):
+    s = callee_str(c)
+    return ("LocalKey" in s and s.rsplit("::", 1)[-1] in ("with", "try_with", "set", "replace", "take", "with_borrow", "with_borrow_mut"))
+
+
+def rule_u7(ctx, facts):
+    """state bracketed around a callback: if per-thread (thread_local!) state is changed before code that runs a caller-supplied closure
+    and put back after it by straight-line code, a panic in the closure skips the restore -- unless the unwind path restores it too
+    (an RAII guard dropped in cleanup, or an explicit access there).  Later operations that consult the stale state then misbehave
+    although the map itself is intact."""
+    cg = callgraph(facts)
+    runs_user = {}
+    for b in facts.bodies:
+        for bid in cg.reachable(b.id):
+            bb = facts.by_id[bid]
+            if any(user_closure_call(c) and not bb.is_cleanup(c.b) for c in bb.calls):
+                runs_user[b.id] = bid
+                break
+    drop_types = {im["self"].split("<")[0] for im in facts.impls if (im.get("trait") or "").endswith("ops::Drop")}
+    n = 0
+    for b in facts.bodies:
+        tls = [c for c in b.calls if tls_access(c) and not b.is_cleanup(c.b)]
+        sites = [c for c in b.calls if not b.is_cleanup(c.b) and (user_closure_call(c) or (c.resolved in runs_user and c.resolved != b.id))]
+        for x in sites:
+            n += 1
+            before = [t for t in tls if x.point in reach(b, after(b, t.point, label="ret"))]
+            aft = reach(b, after(b, x.point, label="ret")) if tls else set()
+            after_ = [t for t in tls if t.point in aft and t.point != x.point]
+            if not before or not after_:
+                if user_closure_call(x):
+                    ctx.inst("U7", b, "thread-local state around the callback at %s" % x.span.split(":", 1)[1], x.span, True,
+                             "no thread-local state is changed before and restored after this call")
+                continue
+            # what the unwind path from x does
+            restored = False
+            if isinstance(x.unwind, int):
+                cl = reach(b, [Point(x.unwind, 0)], unwind=True)
+                for t in b.calls:
+                    if t.point in cl and tls_access(t):
+                        restored = True
+                for blk in {p[0] for p in cl}:
+                    tm = b.term(blk)
+                    if tm["k"] == "drop" and any(tm["ty"]["s"].split("<")[0].lstrip("&") == dt or tm["ty"].get("base") == dt for dt in drop_types):
+                        restored = True
+            ctx.inst("U7", b, "thread-local state around the callback at %s" % x.span.split(":", 1)[1], x.span, restored,
+                     "the unwind path restores it (cleanup access or a guard with a Drop impl)" if restored else
+                     "thread-local state is changed at %s before code that runs a caller-supplied closure and put back at %s only on the normal path: "
+                     "if the closure panics the stale value stays and later operations of this thread that consult it misbehave"
+                     % (before[0].span, after_[0].span))
+    return n
+
+
 def run(ctx, facts):
+    ctx.rule("U7", "state changed around a callback is restored on the unwind path too (no thread-local bracket without a drop guard)", floor=2)
+    rule_u7(ctx, facts)
     ctx.rule("U6", "lock acquisitions do not propagate poisoning: no std::sync lock whose LockResult is unwrapped", floor=8)
     rule_u6(ctx, facts)
     ctx.rule("U1", "every user-closure call under a bin lock unwinds through the Drop of that MutexGuard", floor=2)
